@@ -337,17 +337,37 @@ func c04Orchestration(w *World, r *Report) {
 		ok := a != nil && b != nil && c != nil && domInstr(a, b) && domInstr(b, c) && len(fin) == 1 && domInstr(c, fin[0])
 		r.Check(ok, "R5", "executeRes/phase-order-and-finish", es.Pos(), "response phases run system-start, user, system-end lists (each reversed) and then OnResponseFinish")
 		// hand-over to the short-circuited flow, matched by flow name
+		// (the start node may be passed directly in the matching branch, or through a local
+		// that is set there and is nil otherwise: every non-nil alternative of the argument
+		// is shortCircuit.node under the name test)
 		okN := false
+		okOthers := true
 		for _, e := range efs {
-			if strings.HasSuffix(Path(e.Common().Args[4]), "shortCircuit.node") {
-				for _, rel := range Rels(e.Block()) {
+			for _, alt := range expandAlt(e.Common().Args[4], CondsOf(e.Block()), e.Block(), nil, 3) {
+				if isNilConst(alt.Val) {
+					continue
+				}
+				if !strings.HasSuffix(Path(alt.Val), "shortCircuit.node") {
+					if _, isPhi := alt.Val.(*ssa.Phi); isPhi {
+						okOthers = false // a value carried over from another iteration
+					}
+					continue
+				}
+				named := false
+				for _, rel := range relsOfConds(alt.Conds) {
 					l, rr := Path(rel.L), Path(rel.R)
 					if rel.Op == "==" && (strings.HasSuffix(l, "GetName(param:shortCircuit.flow)") && strings.Contains(rr, "FlowI).GetName(") || strings.HasSuffix(rr, "GetName(param:shortCircuit.flow)") && strings.Contains(l, "FlowI).GetName(")) {
-						okN = true
+						named = true
 					}
+				}
+				if named {
+					okN = true
+				} else {
+					okOthers = false
 				}
 			}
 		}
+		okN = okN && okOthers
 		r.Check(okN, "R5", "executeRes/resume-short-circuited-flow-by-name", es.Pos(), "the recorded node is handed to the user flow whose GetName() equals the short-circuited flow's GetName()")
 	}
 	xf := w.Fn(pkgStreams, "Stream.executeFlow")
@@ -722,6 +742,27 @@ func c04ForeignRootConsumedOnce(w *World, r *Report) {
 // full `flow.processor` key as ReferenceName (the node key) - it is taken
 // before the name is split.
 func c04BuilderHelpers(w *World, r *Report) {
+	// addEdge de-duplicates by ConnectionEdge.equal (condition and target), not by pointer:
+	// every connection builds a fresh edge, an incorporated flow can be built in twice
+	if ae := w.Fn(pkgFlow, "FlowGraphNode.addEdge"); ae == nil {
+		r.Undec("R7", "FlowGraphNode.addEdge", token.NoPos, "function not found")
+	} else {
+		var eq []ssa.CallInstruction
+		for _, af := range Anons(ae) {
+			eq = append(eq, CallsIn(af, false, "ConnectionEdge).equal")...)
+		}
+		st := fieldStores(ae, "edges")
+		ok := len(eq) >= 1 && len(st) == 1
+		if ok {
+			// the append is not reached when equal() said yes for some existing edge
+			for _, c := range eq {
+				if c.Parent() == ae && condsHave(CondsOf(st[0].Block()), true, func(v ssa.Value) bool { return v == c.Value() }) {
+					ok = false
+				}
+			}
+		}
+		r.Check(ok, "R7", "addEdge/duplicates-found-by-equal", ae.Pos(), "addEdge looks for an existing edge with ConnectionEdge.equal (value equality of condition and target; %d call(s)) before appending", len(eq))
+	}
 	if sr := w.Fn(pkgFlow, "FlowDirection.setAsRoot"); sr == nil {
 		r.Undec("R7", "FlowDirection.setAsRoot", token.NoPos, "function not found")
 	} else {
